@@ -19,6 +19,7 @@ import (
 	"sync/atomic"
 	"testing/synctest"
 	"time"
+	"unsafe"
 )
 
 // Task is one goroutine of the system under test that the scheduler controls.
@@ -51,15 +52,18 @@ type Sched struct {
 	selRng     *rand.Rand
 	intRng     *rand.Rand
 
-	StepCnt  int
-	Switches int
-	SchedLog []string // when non-nil: one line per step (debugging the simulator itself)
-	LogSched bool
-	Panics   []string
-	poison   atomic.Bool
-	uuidCtr  uint64
-	schedSig uint64 // rolling hash of (task name) sequence: distinct-interleaving measure
-	spin     map[string]int
+	StepCnt   int
+	Switches  int
+	SchedLog  []string // when non-nil: one line per step (debugging the simulator itself)
+	LogSched  bool
+	Panics    []string
+	poison    atomic.Bool
+	uuidCtr   uint64
+	EndHB     byte   // race detector: merged into by every task that ends
+	rootGoid  uint64 // the goroutine that runs the simulator (Start, Loop, events)
+	rootDepth int    // how many RaceDisable the root goroutine holds
+	schedSig  uint64 // rolling hash of (task name) sequence: distinct-interleaving measure
+	spin      map[string]int
 }
 
 var (
@@ -97,6 +101,8 @@ func Start(o Options) *Sched {
 	if o.Replay != nil {
 		s.replay = o.Replay
 	}
+	s.rootGoid = goid()
+	s.rootDepth = 0
 	gmu.Lock()
 	g = s
 	gmu.Unlock()
@@ -157,6 +163,22 @@ func (s *Sched) checkPoison() {
 	}
 }
 
+// RootRaceDisable / RootRaceEnable are RaceDisable / RaceEnable for the root goroutine; the depth is counted
+// so that Go can lift it for the instant of a go statement (a goroutine started while synchronisation events
+// are ignored does not even inherit what happened before its creation, e.g. package initialisation).
+//
+//go:norace
+func (s *Sched) RootRaceDisable() {
+	RaceDisable()
+	s.rootDepth++
+}
+
+//go:norace
+func (s *Sched) RootRaceEnable() {
+	s.rootDepth--
+	RaceEnable()
+}
+
 // Go starts f as a managed task (rewritten `go` statements and harness API calls).
 //
 //go:norace
@@ -180,6 +202,18 @@ func (s *Sched) Go(name string, f func()) *Task {
 	s.all = append(s.all, t)
 	s.mu.Unlock()
 	RaceEnable()
+	lift := 0
+	if RaceOn && goid() == s.rootGoid {
+		lift = s.rootDepth
+	}
+	for i := 0; i < lift; i++ {
+		RaceEnable()
+	}
+	defer func() {
+		for i := 0; i < lift; i++ {
+			RaceDisable()
+		}
+	}()
 	// the go statement itself stays visible to the race detector (parent happens-before child)
 	go func() {
 		RaceDisable()
@@ -189,6 +223,8 @@ func (s *Sched) Go(name string, f func()) *Task {
 		s.parked = append(s.parked, t)
 		s.mu.Unlock()
 		defer func() {
+			// everything a task did happens before whatever later acquires EndHB (a restarted process)
+			RaceReleaseMerge(unsafe.Pointer(&s.EndHB))
 			RaceDisable()
 			s.mu.Lock()
 			delete(s.byGoid, id)
@@ -343,8 +379,8 @@ func (s *Sched) choose(n int, curFirst bool) int {
 //
 //go:norace
 func (s *Sched) Loop(d Driver, maxSteps int, idleHorizon time.Duration) error {
-	RaceDisable()
-	defer RaceEnable()
+	s.RootRaceDisable()
+	defer s.RootRaceEnable()
 	for {
 		synctest.Wait()
 		s.mu.Lock()
